@@ -1500,8 +1500,13 @@ func (t *tScreen) parseSgrMouse(buf *bytes.Buffer, evs *[]Event) (bool, bool) {
 			btn &^= 32
 			if b[i] == 'm' {
 				// mouse release: the event carries no buttons; the other
-				// buttons of a chord stay down
-				t.buttonsdn &^= 1 << uint(btn&3)
+				// buttons of a chord stay down (a release that names no
+				// button releases them all, a wheel report none)
+				if btn&3 == 3 {
+					t.buttonsdn = 0
+				} else if btn&0x40 == 0 {
+					t.buttonsdn &^= 1 << uint(btn&3)
+				}
 				btn |= 3
 				btn &^= 0x40
 				t.buttondn = t.buttonsdn != 0
@@ -1517,7 +1522,11 @@ func (t *tScreen) parseSgrMouse(buf *bytes.Buffer, evs *[]Event) (bool, bool) {
 					btn |= 3
 					btn &^= 0x40
 				}
-			} else if !scroll {
+			} else if btn&3 == 3 {
+				// no button: the legacy way of reporting a release
+				t.buttonsdn, t.buttondn = 0, false
+			} else if !scroll && btn&0x40 == 0 {
+				// (wheel reports, vertical or horizontal, are not presses)
 				t.buttonsdn |= 1 << uint(btn&3)
 				t.buttondn = true
 			}
